@@ -40,7 +40,9 @@ pub fn check_obs(rep: &mut Report, ctx: &serde_json::Value, phonetic: bool, type
                 // known finding only in its exact shape: phonetic, a punctuation key of the override set, index = the caller's byte, AND a
                 // reason for the list to be shorter that the unchanged engine has: the key changed the word part (a colon joins it, a mark
                 // after a colon detaches the colon) or the text is / was an emoticon. A punctuation mark that merely trails the word leaves
-                // the list as long as it was — a shorter list there is something else. (Word part by the harness's own splitter.)
+                // the list at least as long as it was — a shorter list there is something else. (Word part by the harness's own splitter;
+                // Props/C02Selection.lean: override_word_same_iff — of the override keys only the colon changes the word part —,
+                // list_length_same_word_iff / list_length_le_same_word, override_in_range_same_word_partial.)
                 let reason = typed.map(|cur| {
                     let prev: String = { let n = cur.chars().count(); cur.chars().take(n.saturating_sub(1)).collect() };
                     let emo = |x: &str| EMOTICON_KEYS.get().map(|s| s.contains(x)).unwrap_or(true);
